@@ -115,8 +115,28 @@ def parseSched (s : String) : Option (List Poll.Sched) :=
     else if it.startsWith "i" then (it.drop 1).toString.toNat?.map Poll.Sched.chunk
     else none
 
-def showReqs (l : List (Nat × Nat)) : String :=
-  if l.isEmpty then "-" else ";".intercalate (l.map fun (a, b) => s!"{a}:{b}")
+/-- End of the current frame as far as the stream determines it: header + remaining length when the
+length field is complete, 5 when it runs into a fifth continuation byte, and one past the stream when
+it is cut short (the decoder may ask for the byte that would complete the header). -/
+def frameLimit (bs : Bytes) : Nat :=
+  let rec go (rest : Bytes) (k : Nat) (mul val : Nat) : Nat :=
+    match k, rest with
+    | 0, _ => 5
+    | _, [] => bs.length + 1
+    | k + 1, b :: rest' =>
+      let val' := val + (b.toNat % 128) * mul
+      if b.toNat < 128 then (1 + (4 - k)) + val' else go rest' k (mul * 128) val'
+  match bs with
+  | [] => 1
+  | _ :: rest => go rest 4 1 0
+
+/-- The PROPERTY-relevant abstraction of the read requests (position, capacity): every offered buffer
+has room for at least one byte and ends within the current frame.  (The exact sizes of the reads are an
+implementation choice; comparing them would flag harmless rewrites.) -/
+def showReqs (bs : Bytes) (l : List (Nat × Nat)) : String :=
+  match l.find? (fun (a, b) => b == 0 || a + b > frameLimit bs) with
+  | none => "ok"
+  | some (a, b) => s!"bad({a}:{b})"
 
 def v3ShowOut : V3.Out Error V3.Packet → String
   | .ok p n => s!"ok {n} {p.show}"
@@ -168,7 +188,7 @@ def v3Poll (debug : Bool) (bs : Bytes) (sched : List Poll.Sched) (term : V3.Term
     | .ok total body p => s!"ok total={total} body={hexOrDash body} {p.show}"
     | .err e => s!"err {e.show}"
     | .panic s => s!"panic[{s}]"
-  s!"{res} consumed={r.consumed} pend={r.log.pendings} reqs={showReqs r.log.requests}"
+  s!"{res} consumed={r.consumed} pend={r.log.pendings} reqs={showReqs bs r.log.requests}"
 
 def v3Cwp (proto : String) (bs : Bytes) : String :=
   match V3.parseProtocol proto with
@@ -265,7 +285,7 @@ def v5Poll (debug : Bool) (bs : Bytes) (sched : List Poll.Sched) (term : V3.Term
     | .ok total body p => s!"ok total={total} body={hexOrDash body} {p.show}"
     | .err e => s!"err {e.show}"
     | .panic s => s!"panic[{s}]"
-  s!"{res} consumed={r.consumed} pend={r.log.pendings} reqs={showReqs r.log.requests}"
+  s!"{res} consumed={r.consumed} pend={r.log.pendings} reqs={showReqs bs r.log.requests}"
 
 def v5Cwp (proto : String) (cb : UInt8) (rl : Nat) (bs : Bytes) : String :=
   match V3.parseProtocol proto, V5.Header.newWith cb rl with
